@@ -53,7 +53,7 @@ def showStatus (st : Status) : String :=
   | some e => e.1
   | none => "??"
 
-def parseAct (s : String) : Option Act :=
+def parseSimpleAct (s : String) : Option Act :=
   if s == "R" then some .recoverAll else
   match s.splitOn ":" with
   | ["t", p] => (parsePinTok p).map .track
@@ -63,6 +63,19 @@ def parseAct (s : String) : Option Act :=
   | ["k", c] => c.toNat?.map .ok
   | ["x", c] => c.toNat?.map .err
   | ["l", c] => c.toNat?.map .lose
+  | _ => none
+
+/-- `<k|x>:<c>&<t|u|r>:<..>` = the daemon's answer races with the instruction -/
+def parseAct (s : String) : Option Act :=
+  match s.splitOn "&" with
+  | [a] => parseSimpleAct a
+  | [d, i] => do
+    let da ← parseSimpleAct d
+    let ia ← parseSimpleAct i
+    match da, ia with
+    | .ok _, .track _ | .ok _, .untrack _ | .ok _, .recover _
+    | .err _, .track _ | .err _, .untrack _ | .err _, .recover _ => pure (.race da ia)
+    | _, _ => none
   | _ => none
 
 /-! ### observations as token strings (the comparison is on these canonical strings) -/
@@ -270,6 +283,42 @@ def applyAct (cfg : Cfg) (s : State) (f : Frame) : ModelOut :=
     | some i => { s := retErr s i, ret := .na, infos := [] }
     | none => { s := s, ret := .na, infos := [] }
   | .lose c => { s := lose s c, ret := .na, infos := [] }
+  | .race _ _ => { s := s, ret := .na, infos := [], note := "race-not-expanded" }
+
+/-- the outcomes the model allows for one action, each already run to its stable point. A race has up to
+    three: answer processed first (and a freed worker already at work), answer processed first (worker not
+    yet), instruction first (the answer then meets a possibly cancelled operation). The daemon's effect has
+    landed before either. -/
+def candidates (cfg : Cfg) (s : State) (f : Frame) : List ModelOut :=
+  let fin (m : ModelOut) : ModelOut := { m with s := stabilize cfg m.s }
+  match f.act with
+  | .race d i =>
+    let c := match d with | .ok c => c | .err c => c | _ => 0
+    let isOk := match d with | .ok _ => true | _ => false
+    match liveCallFor s c with
+    | none => [fin (applyAct cfg s { f with act := i })]
+    | some op =>
+      let s0 := if isOk then effect s op else s
+      let retStep (st : State) : State := if isOk then retOk st op else retErr st op
+      let a1 := applyAct cfg (stabilize cfg (retStep s0)) { f with act := i }
+      let a2 := applyAct cfg (retStep s0) { f with act := i }
+      let b0 := applyAct cfg s0 { f with act := i }
+      let b := { b0 with s := retStep b0.s }
+      -- the daemon's failure log is written when the answer is released, i.e. before the instruction
+      let kindUnpin := match s.calls.find? (fun k => k.op == op) with
+        | some k => k.kind == .unpin
+        | none => false
+      let fl0 := if !isOk && kindUnpin then upd s.failed c true else s.failed
+      let fl1 := match i with
+        | .track p => if p.kind == .here then upd fl0 p.cid false else fl0
+        | .untrack x => upd fl0 x false
+        | _ => fl0
+      -- Recover reads the status it returns after enqueueing: before or after the racing answer is processed
+      let patch (m : ModelOut) : ModelOut :=
+        { m with s := { m.s with failed := fl1 },
+                 infos := match i with | .recover _ => f.infos.map (fun ci => (ci.1, normInfo ci.2)) | _ => m.infos }
+      [fin (patch a1), fin (patch a2), fin (patch b)]
+  | _ => [fin (applyAct cfg s f)]
 
 def showInfos (l : List (Nat × Status)) : String :=
   if l.isEmpty then "-" else ",".intercalate (l.map (fun ci => s!"{ci.1}.{showStatus ci.2}"))
@@ -277,17 +326,33 @@ def showInfos (l : List (Nat × Status)) : String :=
 def frameStrings (n : Nat) (ret : RetCode) (infos : List (Nat × Status)) (o : Obs) : List String :=
   ("ret=" ++ showRetCode ret ++ ":" ++ showInfos (infos.map (fun ci => (ci.1, normInfo ci.2)))) :: showObs n o
 
-/-- first frame where the model and the implementation part; none = agreement -/
-def firstDiff (cfg : Cfg) : Nat → State → List Frame → Option (Nat × String)
+/-- first frame where the model and the implementation part (none = agreement). Races are resolved by
+    trying the allowed outcomes in turn, backtracking when a later frame cannot be followed. -/
+partial def firstDiff (cfg : Cfg) : Nat → State → List Frame → Option (Nat × String)
   | _, _, [] => none
   | k, s, f :: rest =>
-    let m := applyAct cfg s f
-    let s' := stabilize cfg m.s
-    let want := frameStrings cfg.ncids m.ret m.infos (observe s')
     let got := frameStrings cfg.ncids f.ret f.infos f.obs
-    if m.note != "" then some (k, "note:" ++ m.note)
-    else if want != got then some (k, " ".intercalate want)
-    else firstDiff cfg (k + 1) s' rest
+    let cands := candidates cfg s f
+    let matching := cands.filter (fun m => m.note == "" && frameStrings cfg.ncids m.ret m.infos (observe m.s) == got)
+    match matching with
+    | [] =>
+      match cands with
+      | m :: _ =>
+        if m.note != "" then some (k, "note:" ++ m.note)
+        else some (k, " ".intercalate (frameStrings cfg.ncids m.ret m.infos (observe m.s)))
+      | [] => some (k, "no-candidate")
+    | _ =>
+      let rec tryAll : List ModelOut → Option (Nat × String) → Option (Nat × String)
+        | [], deepest => deepest
+        | m :: more, deepest =>
+          match firstDiff cfg (k + 1) m.s rest with
+          | none => none
+          | some d =>
+            let best := match deepest with
+              | some d0 => if d.1 > d0.1 then some d else some d0
+              | none => some d
+            tryAll more best
+      tryAll matching none
 
 /-! ### coverage arms -/
 
@@ -300,12 +365,13 @@ def arms (c : Case) : List String :=
   let isInstr (a : Act) : Bool := match a with
     | .track _ | .untrack _ | .recover _ | .recoverAll => true
     | _ => false
-  let quiesced := (c.frames.dropWhile (fun f => !isInstr f.act)).any (fun f => quiescent c.cfg.ncids f.obs)
+  let quiesced := (c.frames.dropWhile (fun f => !isInstr (instrOf f.act))).any (fun f => quiescent c.cfg.ncids f.obs)
   let healed := healedSomewhere c.cfg.ncids c.obs0 c.frames
   let l := (if has (fun f => f.ret == .full) then ["full"] else [])
-    ++ (if has (fun f => match f.act with | .err _ => true | _ => false) then ["fault"] else [])
+    ++ (if has (fun f => match f.act with | .err _ | .race (.err _) _ => true | _ => false) then ["fault"] else [])
     ++ (if has (fun f => f.ret == .pending) then ["remote"] else [])
-    ++ (if has (fun f => match f.act with | .recover _ | .recoverAll => true | _ => false) then ["recover"] else [])
+    ++ (if has (fun f => match f.act with | .race _ _ => true | _ => false) then ["race"] else [])
+    ++ (if has (fun f => match instrOf f.act with | .recover _ | .recoverAll => true | _ => false) then ["recover"] else [])
     ++ (if healed then ["heal"] else [])
     ++ (if quiesced then ["quiesce"] else [])
   if l.isEmpty then ["plain"] else l
@@ -313,7 +379,7 @@ def arms (c : Case) : List String :=
 def showArms (c : Case) : String := " ".intercalate ((arms c).map ("arm=" ++ ·))
 
 def trivial (c : Case) : Bool :=
-  !(c.frames.any (fun f => match f.act with
+  !(c.frames.any (fun f => match instrOf f.act with
     | .track _ | .untrack _ | .recover _ | .recoverAll => true
     | _ => false))
 
@@ -327,7 +393,7 @@ def sharedFollowsScript (c : Case) : Bool :=
   let rec go (sh : Nat → Option PinSpec) : List Frame → Bool
     | [] => true
     | f :: rest =>
-      let sh' := step sh f.act
+      let sh' := step sh (instrOf f.act)
       (List.range c.cfg.ncids).all (fun x => f.obs.shared x == sh' x) && go sh' rest
   go (fun _ => none) c.frames
 
